@@ -192,7 +192,8 @@ class World(object):
         import re
         n = {}
         for name, e in unit._units.items():
-            j = ATOM_ID[re.sub(r'^store[0-9]+_', '', name)]
+            name = re.sub(r'^store[0-9]+_', '', name)
+            j = ATOM_ID[{'meter': 'metre'}.get(name, name)]
             n[j] = n.get(j, 0) + F(e).limit_denominator(1024)
         return {j: e for j, e in n.items() if e != 0}
 
